@@ -100,6 +100,40 @@ impl StaticSchemaMarker for St2 {
     }
 }
 
+struct St3 {
+    name: StringHandle,
+    strs: Vec<StringHandle>,
+}
+
+impl StaticSchemaMarker for St3 {
+    const UNIQUE_MARKER_TYPE_NAME: &'static str = "St3";
+    const FIELDS: &'static [StaticSchemaMarkerField] = &[
+        fld("f0", MarkerFieldFormat::FilePath),
+        fld("f1", MarkerFieldFormat::String),
+        fld("f2", MarkerFieldFormat::Seconds),
+        fld("f3", MarkerFieldFormat::SanitizedString),
+        fld("f4", MarkerFieldFormat::Decimal),
+    ];
+    fn name(&self, _p: &mut Profile) -> StringHandle {
+        self.name
+    }
+    fn string_field_value(&self, i: u32) -> StringHandle {
+        match i {
+            0 => self.strs[0],
+            1 => self.strs[1],
+            3 => self.strs[2],
+            _ => unreachable!(),
+        }
+    }
+    fn number_field_value(&self, i: u32) -> f64 {
+        match i {
+            2 => 0.25,
+            4 => 7.5,
+            _ => unreachable!(),
+        }
+    }
+}
+
 /// formats of the static schemas, in the alphabet of the `mtype` op: u = unique-string,
 /// s = other string kind, n = number
 pub use verif_harness::gen::c03_ops::STATIC_FORMATS;
@@ -270,7 +304,39 @@ fn addr_kind(s: &str) -> Option<()> {
 
 /// number of string-kind fields of a format word
 fn string_fields(fmt: &str) -> usize {
-    fmt.chars().filter(|c| *c == 'u' || *c == 's').count()
+    fmt.chars().filter(|c| c03_gen::is_string_format(*c)).count()
+}
+
+/// the `MarkerFieldFormat` of a format letter of the `mtype` op (all 14 variants)
+fn field_format(ch: char) -> Option<MarkerFieldFormat> {
+    use MarkerFieldFormat::*;
+    Some(match ch {
+        'u' => String,
+        'U' | 's' => Url,
+        'P' => FilePath,
+        'Z' => SanitizedString,
+        'D' => Duration,
+        'T' => Time,
+        'S' => Seconds,
+        'M' => Milliseconds,
+        'C' => Microseconds,
+        'N' => Nanoseconds,
+        'B' => Bytes,
+        'p' => Percentage,
+        'i' | 'n' => Integer,
+        'd' => Decimal,
+        _ => return None,
+    })
+}
+
+/// `st:k[:tm]` / `rt:reg[:tm]` -> (tag, argument, timing letter)
+fn mtype_tok(s: &str) -> Option<(&str, &str, &str)> {
+    let p: Vec<&str> = s.split(':').collect();
+    match p.len() {
+        2 => Some((p[0], p[1], "i")),
+        3 if matches!(p[2], "i" | "v" | "s" | "e") => Some((p[0], p[1], p[2])),
+        _ => None,
+    }
 }
 
 pub fn check_program(ops: &[String]) -> Option<()> {
@@ -340,6 +406,22 @@ pub fn check_program(ops: &[String]) -> Option<()> {
                 num(w[3])?;
                 num(w[4])?;
                 num(w[5])?;
+            }
+            ("kmap", 5) => {
+                c.is(w[1], Kind::Lib)?;
+                num(w[2])?;
+                num(w[3])?;
+                num(w[4])?;
+            }
+            ("kunmap", 2) => {
+                num(w[1])?;
+            }
+            ("unmap", 3) => {
+                c.is(w[1], Kind::Proc)?;
+                num(w[2])?;
+            }
+            ("clearmaps", 2) => {
+                c.is(w[1], Kind::Proc)?;
             }
             ("string", 3) => {
                 unhex_str(w[2])?;
@@ -450,13 +532,13 @@ pub fn check_program(ops: &[String]) -> Option<()> {
                 unhex_str(w[2])?;
                 c.is(w[3], Kind::Cat)?;
                 let f = if w[4] == "-" { "" } else { w[4] };
-                f.chars().all(|ch| matches!(ch, 'u' | 's' | 'n')).then_some(())?;
+                f.chars().all(|ch| field_format(ch).is_some()).then_some(())?;
                 c.def(w[1], Kind::MType)?;
                 c.formats.insert(w[1].to_string(), f.to_string());
             }
             ("marker", n) if n >= 5 => {
                 c.is(w[2], Kind::Thread)?;
-                let (tag, rest) = w[3].split_once(':')?;
+                let (tag, rest, _tm) = mtype_tok(w[3])?;
                 let fmt = match tag {
                     "st" => STATIC_FORMATS.get(num(rest)? as usize)?.to_string(),
                     "rt" => {
@@ -659,16 +741,42 @@ impl Exec {
             "lib" => {
                 // the op carries the library's identity string `dir/…/name`; LibraryInfo::name is its last component
                 // (so that different libraries can share a name), the path is "/lib/" + identity
+                // an optional `#<variant>` suffix (`d<hex>` debug id, `c<hex>` code id, `a<digit>` arch, `n<digit>`
+                // debug name, in this order) changes only those fields: name and path stay the same
                 let ident = unhex_str(w[2])?;
-                let name = ident.rsplit('/').next().unwrap_or("").to_string();
+                let (base, variant) = match ident.split_once('#') {
+                    Some((b, v)) => (b.to_string(), v.to_string()),
+                    None => (ident.clone(), String::new()),
+                };
+                let name = base.rsplit('/').next().unwrap_or("").to_string();
+                let mut debug_id = DebugId::nil();
+                let mut code_id = None;
+                let mut arch = None;
+                let mut debug_name = name.clone();
+                let vb: Vec<char> = variant.chars().collect();
+                let mut i = 0;
+                while i + 1 < vb.len() {
+                    let k = vb[i + 1];
+                    match vb[i] {
+                        'd' => debug_id = DebugId::from_breakpad(&format!("{}0", k.to_string().repeat(32))).ok()?,
+                        'c' => code_id = Some(format!("c{k}")),
+                        'a' => arch = Some(format!("arch{k}")),
+                        'n' => debug_name = format!("{name}.dbg{k}"),
+                        _ => return None,
+                    }
+                    i += 2;
+                }
+                if !variant.is_empty() {
+                    stats.bump("libs_with_variant_fields");
+                }
                 let h = self.p.add_lib(LibraryInfo {
                     name: name.clone(),
-                    debug_name: name.clone(),
-                    path: format!("/lib/{ident}"),
-                    debug_path: format!("/lib/{ident}"),
-                    debug_id: DebugId::nil(),
-                    code_id: None,
-                    arch: None,
+                    debug_name,
+                    path: format!("/lib/{base}"),
+                    debug_path: format!("/lib/{base}"),
+                    debug_id,
+                    code_id,
+                    arch,
                 });
                 self.set(w[1], Val::Lib(h));
                 Some(format!("h {}", nums(&h)))
@@ -691,6 +799,25 @@ impl Exec {
                 let pr = self.proc(w[1])?;
                 let l = self.lib(w[2])?;
                 self.p.add_lib_mapping(pr, l, num(w[3])?, num(w[4])?, num(w[5])? as u32);
+                Some("ok".into())
+            }
+            "kmap" => {
+                let l = self.lib(w[1])?;
+                self.p.add_kernel_lib_mapping(l, num(w[2])?, num(w[3])?, num(w[4])? as u32);
+                Some("ok".into())
+            }
+            "kunmap" => {
+                self.p.remove_kernel_lib_mapping(num(w[1])?);
+                Some("ok".into())
+            }
+            "unmap" => {
+                let pr = self.proc(w[1])?;
+                self.p.remove_lib_mapping(pr, num(w[2])?);
+                Some("ok".into())
+            }
+            "clearmaps" => {
+                let pr = self.proc(w[1])?;
+                self.p.clear_process_lib_mappings(pr);
                 Some("ok".into())
             }
             "string" => {
@@ -844,11 +971,7 @@ impl Exec {
                     .map(|(i, ch)| RuntimeSchemaMarkerField {
                         key: format!("f{i}"),
                         label: "l".into(),
-                        format: match ch {
-                            'u' => MarkerFieldFormat::String,
-                            's' => MarkerFieldFormat::Url,
-                            _ => MarkerFieldFormat::Integer,
-                        },
+                        format: field_format(ch).unwrap_or(MarkerFieldFormat::Integer),
                         flags: MarkerFieldFlags::empty(),
                     })
                     .collect();
@@ -874,14 +997,21 @@ impl Exec {
                 for s in &w[5..] {
                     strs.push(self.string(s)?);
                 }
-                let timing = MarkerTiming::Instant(ts(1));
-                let (tag, rest) = w[3].split_once(':')?;
+                let (tag, rest, tm) = mtype_tok(w[3])?;
+                let timing = match tm {
+                    "v" => MarkerTiming::Interval(ts(1), ts(3)),
+                    "s" => MarkerTiming::IntervalStart(ts(2)),
+                    "e" => MarkerTiming::IntervalEnd(ts(4)),
+                    _ => MarkerTiming::Instant(ts(1)),
+                };
+                stats.bump(&format!("marker_timing_{tm}"));
                 let h = if tag == "st" {
                     stats.bump("markers_static_schema");
                     match num(rest)? {
                         0 => self.p.add_marker(t, timing, St0 { name, strs }),
                         1 => self.p.add_marker(t, timing, St1 { name, strs }),
-                        _ => self.p.add_marker(t, timing, St2 { name }),
+                        2 => self.p.add_marker(t, timing, St2 { name }),
+                        _ => self.p.add_marker(t, timing, St3 { name, strs }),
                     }
                 } else {
                     stats.bump("markers_runtime_schema");
@@ -890,7 +1020,10 @@ impl Exec {
                         _ => return None,
                     };
                     let mut it = strs.into_iter();
-                    let strs = fmt.chars().map(|ch| if ch == 'n' { None } else { it.next() }).collect();
+                    for ch in fmt.chars() {
+                        stats.bump(&format!("marker_field_format_{ch}"));
+                    }
+                    let strs = fmt.chars().map(|ch| if c03_gen::is_string_format(ch) { it.next() } else { None }).collect();
                     self.p.add_marker(t, timing, RtMarker { ty, name, strs })
                 };
                 self.set(w[1], Val::Marker(h));
@@ -986,8 +1119,35 @@ fn lib_ident(l: &Value) -> String {
     let path = l.get("path").and_then(|x| x.as_str()).unwrap_or("?");
     let name = l.get("name").and_then(|x| x.as_str()).unwrap_or("?");
     let ident = path.strip_prefix("/lib/").unwrap_or("?");
-    if ident.rsplit('/').next().unwrap_or("") == name && l.get("debugName").and_then(|x| x.as_str()) == Some(name) && l.get("debugPath").and_then(|x| x.as_str()) == Some(path) {
-        hexs(ident)
+    // the `#<variant>` suffix, reconstructed from the fields it stands for
+    let mut variant = String::new();
+    let bp = l.get("breakpadId").and_then(|x| x.as_str()).unwrap_or("?");
+    if bp != "000000000000000000000000000000000" {
+        let k = bp.chars().next().unwrap_or('?').to_ascii_lowercase();
+        if bp.len() == 33 && bp[..32].chars().all(|c| c.to_ascii_lowercase() == k) && bp.ends_with('0') {
+            variant.push_str(&format!("d{k}"));
+        } else {
+            variant.push_str("d?");
+        }
+    }
+    match l.get("codeId") {
+        Some(Value::Null) | None => {}
+        Some(v) => variant.push_str(&format!("c{}", v.as_str().and_then(|s| s.strip_prefix('c')).unwrap_or("?"))),
+    }
+    match l.get("arch") {
+        Some(Value::Null) | None => {}
+        Some(v) => variant.push_str(&format!("a{}", v.as_str().and_then(|s| s.strip_prefix("arch")).unwrap_or("?"))),
+    }
+    let dn = l.get("debugName").and_then(|x| x.as_str()).unwrap_or("?");
+    if dn != name {
+        variant.push_str(&format!("n{}", dn.strip_prefix(&format!("{name}.dbg")).unwrap_or("?")));
+    }
+    if ident.rsplit('/').next().unwrap_or("") == name && l.get("debugPath").and_then(|x| x.as_str()) == Some(path) {
+        if variant.is_empty() {
+            hexs(ident)
+        } else {
+            hexs(&format!("{ident}#{variant}"))
+        }
     } else {
         hexs(&format!("?{name}"))
     }
@@ -1025,7 +1185,18 @@ fn dump(json: &Value, out: &mut Vec<String>, stats: &mut Stats) {
             "counter {} {} {}",
             c.get("pid").and_then(|x| x.as_str()).unwrap_or("?"),
             c.get("mainThreadIndex").map(tok).unwrap_or("x".into()),
-            c.get("samples").and_then(|s| s.get("length")).map(tok).unwrap_or("x".into())
+            {
+                // `samples.length`, provided every column of the counter's sample table has that length
+                let sm = c.get("samples");
+                let len = sm.and_then(|s| s.get("length")).and_then(|x| x.as_u64());
+                let cols_ok = ["count", "number", "timeDeltas"]
+                    .iter()
+                    .all(|k| sm.and_then(|s| s.get(*k)).and_then(|x| x.as_array()).map(|a| a.len() as u64) == len);
+                match (len, cols_ok) {
+                    (Some(l), true) => l.to_string(),
+                    _ => "x".into(),
+                }
+            }
         ));
     }
     let threads = json.get("threads").and_then(|x| x.as_array()).cloned().unwrap_or_default();
@@ -1112,6 +1283,16 @@ fn dump(json: &Value, out: &mut Vec<String>, stats: &mut Stats) {
             }
         }
         out.push(format!("MK.stack {}", stk.join(" ")).trim_end().to_string());
+        // startTime / endTime: `None` is serialized as 0.0 (serialization_helpers.rs:25), a stored time as its value in
+        // ms; the harness only passes non-zero times, so "non-zero" = "a time was stored".  phase: the number
+        for (tag, key) in [("MK.start", "startTime"), ("MK.end", "endTime")] {
+            let c = match arr(mk, key) {
+                Some(a) => a.iter().map(|v| match v.as_f64() { Some(x) if x == 0.0 => "0", Some(_) => "1", None => "?" }).collect::<Vec<_>>().join(" "),
+                None => "missing".into(),
+            };
+            out.push(format!("{tag} {c}").trim_end().to_string());
+        }
+        out.push(format!("MK.phase {}", col(mk, "phase")).trim_end().to_string());
         out.push(format!("MK.ustr {}", ustr.join(" ")).trim_end().to_string());
     }
 }
@@ -1123,7 +1304,7 @@ impl Prop for C03 {
     fn case_count(&self, tier: Tier) -> u64 {
         match tier {
             Tier::Quick => 6000,
-            Tier::Thorough => 120000,
+            Tier::Thorough => 100000,
         }
     }
     fn fixed_cases(&self, tier: Tier) -> Vec<Case> {
@@ -1144,7 +1325,15 @@ impl Prop for C03 {
             regs: HashMap::new(),
         };
         let mut out = Vec::new();
-        for l in ops {
+        let half = ops.len() / 2;
+        for (opi, l) in ops.iter().enumerate() {
+            // serialisation must not change the profile: serialise once half-way (result discarded) so that anything
+            // cached at the first serialisation (used-lib list, thread order, string tables) would be stale at the end
+            if opi == half && half > 0 {
+                if catch_unwind(AssertUnwindSafe(|| serde_json::to_value(&ex.p).is_ok())).is_err() {
+                    stats.bump("midway_serialize_panics");
+                }
+            }
             let w: Vec<&str> = l.split_whitespace().collect();
             stats.bump(&format!("op_{}", w[0]));
             let r = catch_unwind(AssertUnwindSafe(|| ex.step(&w, stats)));
@@ -1168,7 +1357,16 @@ impl Prop for C03 {
             }
         }
         match catch_unwind(AssertUnwindSafe(|| serde_json::to_value(&ex.p))) {
-            Ok(Ok(json)) => dump(&json, &mut out, stats),
+            Ok(Ok(json)) => {
+                // serialising twice gives the same JSON
+                match catch_unwind(AssertUnwindSafe(|| serde_json::to_value(&ex.p))) {
+                    Ok(Ok(again)) if again == json => dump(&json, &mut out, stats),
+                    _ => {
+                        stats.bump("second_serialization_differs");
+                        out.push("serialize-twice-differs".into());
+                    }
+                }
+            }
             Ok(Err(_)) => out.push("serialize-error".into()),
             Err(_) => {
                 stats.bump("serialize_panics");
